@@ -28,7 +28,75 @@ PROPS = {
     "C03": {"rule": MATCHER_RULE, "trusted_base": MATCHER_TB, "assumptions": MATCHER_ASSUME},
 }
 
+EXEC_TB = [
+    KERNEL,
+    "the theorem statements in lean/ScrutModel/Props being a faithful reading of the property",
+    CORR,
+    "hand-written model lean/ScrutModel/Model/Exec.lean of TestCase::validate, StatefulExecutor::execute_all, BashScriptExecutor's skip handling, the result mapping of `scrut test` and main's exit status; tied to the code by correspondence (in-process for the library parts, end-to-end through the built binary with real bash for src/bin)",
+    "output acceptance by expectations enters the model as a Boolean (it is the subject of C01-C03)",
+    "time is a natural number of milliseconds in the model; wall-clock enforcement, process creation/killing and signal delivery are OS behaviour, exercised end-to-end only",
+    "bash 5.2, subprocess crate, serde_json (to read `-r json`)",
+    RUSTC,
+]
+EXEC_RULE = (
+    "(1) exhaustive decision table of TestCase::validate (status x expected code x stream x acceptance); (2) the real StatefulExecutor with a scripted Runner: every status sequence "
+    "over {0,1,80,7,timeout,skipped,detached,unknown} up to length 3 (thorough 4) x document limit {absent,0,2s,60s} with seeded per-test fields, comparing result, outputs and the limit handed to each runner call; "
+    "(3) seeded end-to-end runs of the built binary over 1-3 Markdown/Cram documents whose tests pass/fail on output/fail on code/skip/time out/are killed/detach, comparing `-r json` kinds, exit status, execution order (marker file) and TMPDIR leftovers; "
+    "(4, C14 and thorough) wall-clock documents. non-trivial = at least two test cases; distinct = distinct model op line"
+)
+EXEC_ASSUME = [
+    "the Lean model is tied to the Rust code by differential execution, not by translation",
+    "end-to-end timing cases use generous margins (limits 300 ms - 1 s against sleeps of 2.5 - 3 s)",
+]
+for _p in ("C05", "C14", "C15", "C20"):
+    PROPS[_p] = {"rule": EXEC_RULE, "trusted_base": EXEC_TB, "assumptions": EXEC_ASSUME, "needs_bin": True}
+
+CONFIG_TB = [
+    KERNEL,
+    "the theorem statements in lean/ScrutModel/Props being a faithful reading of the property",
+    CORR,
+    "hand-written model lean/ScrutModel/Model/Config.lean of TestCaseConfig/DocumentConfig layering (src/config.rs) and of the order in which parser, test command and executor compose the layers; BTreeMap modelled as insertion list with last-binding-wins lookup",
+    "values are abstract (natural numbers); serde_yaml parsing of the layers is not part of this property (see C17)",
+    RUSTC,
+]
+CONFIG_RULE = (
+    "exhaustive {unset,A,B}^4 over the four layers for each of the 7 scalar keys; every subset of three variable names per environment layer (inline, defaults, scrut's own) = 512 overlap patterns; "
+    "seeded random full configurations through the composed pipeline; associativity/empty-layer/list accumulation on random triples of both structs; 108 end-to-end runs of the binary observing which stream is compared and which FOO value a test sees "
+    "for every assignment of {cli, inline, defaults} layers. non-trivial = some key or variable set in at least two layers; distinct = distinct model op line"
+)
+PROPS["C16"] = {"rule": CONFIG_RULE, "trusted_base": CONFIG_TB, "assumptions": ["the Lean model is tied to the Rust code by differential execution, not by translation"], "needs_bin": True}
+
 MANIFEST_TEXT = {
+    "C05": {
+        "text": "Machine-checked theorems over the model of validate / executor / result mapping: validate = ok iff an exit code was produced, equals the expected one and the configured stream is accepted (C05_succeeds_iff); wrong code reported regardless of output; no exit code => never succeeded; and for every runner behaviour a test case is reported succeeded only if the runner was really called for it and returned the expected code (C05_succeeded_only_if_ran: nothing after an aborted execution passes). Tie to code: exhaustive validate table, exhaustive scripted status sequences through the real StatefulExecutor, end-to-end runs with real bash (exit N, kill -9 $$, timeouts, detached).",
+        "design_ref": "DESIGN.md §6 C05",
+        "note": "Trusted: Lean kernel + 3 standard axioms, the correspondence harness, statement reading. Output acceptance is a Boolean here (C01-C03 cover it). That a signal-killed bash surfaces as Signaled is OS behaviour, sampled end-to-end. Two genuine defects were repaired by fix: commits (fd07654, c9a8c06).",
+        "technique": "Lean 4 theorems on an executable model of verdict+executor + differential correspondence (exhaustive table, scripted runner, e2e binary)",
+    },
+    "C14": {
+        "text": "Machine-checked: the limit handed to a runner is min(per-test, remaining document limit), attributed to the document exactly when that is strictly smaller (C14_effective_is_min); on a timeout the test is reported failed/timeout, all later ones skipped, none passed (C14_abort_and_skip); with an honest runner a timeout is reported only if the command ran at least as long as the limit handed (C14_no_spurious) and always when it did (C14_enforced). Tie to code: the real StatefulExecutor with a scripted runner recording the limit it is handed for every per-test x document limit combination, plus wall-clock documents with real sleeps. PARTIAL: wall-clock enforcement itself is runtime behaviour, exercised end-to-end with margins, not proved.",
+        "design_ref": "DESIGN.md §6 C14",
+        "note": "Partial: the model's clock is arithmetic; that SubprocessRunner stops waiting at the limit, and elapsed-time accounting by Instant, are exercised with real processes only. Defect repaired by fix: 8ad4e6f (per-test limit always won).",
+        "technique": "Lean 4 theorems on executor model with honest-runner contract + scripted-runner correspondence + timed e2e runs",
+    },
+    "C15": {
+        "text": "Machine-checked: execution ends as skipped only because a test exited with its own skip code (default 80 or configured) or was reported skipped (C15_skip_cause); a skipped document reports every test skipped, none failed/passed, and is neutral for the exit status (C15_skip_all, C15_others_unaffected); a regularly ending document reports no skipped test, and after a timeout exactly the later tests are skipped (C15_no_spurious_skip, C15_skipped_after_timeout). Tie to code: scripted status sequences with default/custom skip codes through the real StatefulExecutor, end-to-end Markdown and Cram documents.",
+        "design_ref": "DESIGN.md §6 C15",
+        "note": "As C05. The Cram path (BashScriptExecutor) is modelled for scripts that run to their end (execScript) and compared end-to-end only.",
+        "technique": "Lean 4 theorems on executor/result-mapping model + scripted-runner correspondence + e2e binary",
+    },
+    "C16": {
+        "text": "Machine-checked: for each of the 7 scalar keys the effective value is the first of [command line, inline, document defaults, format] that sets it (C16_scalar); for every environment variable the first of [scrut's own, command line, inline, defaults, format] that binds it (C16_env); layering is associative, the empty layer is neutral, prepend/append accumulate (C16_assoc, C16_empty, C16_lists); document keys: command line > front-matter > format (C16_document). The model composes the layers in the order parser, test command and executor do. Tie to code: exhaustive {unset,A,B}^4 per key and all environment overlap patterns through the real functions, random triples for associativity, 108 end-to-end runs observing the effective stream and variable.",
+        "design_ref": "DESIGN.md §6 C16",
+        "note": "Trusted: kernel + axioms, harness. YAML parsing of layers belongs to C17. Defect repaired by fix: 0b77d2c (defaults' environment won over inline).",
+        "technique": "Lean 4 algebraic laws on config-layering model + exhaustive differential correspondence + e2e observation",
+    },
+    "C20": {
+        "text": "Machine-checked: the runner is called once per test case for a prefix 0..k-1 in order, for all of them on a regular end (C20_calls); reported results have strictly increasing indices (at most one per test), exactly one for every non-detached test on the regular path (C20_one_result); exit status is 1 iff a document could not be processed, else 50 iff some outcome is a failure (anything but success/skipped), else 0 (C20_exit_status, C20_failure_kinds); prepend/own/append order (C20_assemble). Tie to code: scripted runner call order in-process; end-to-end runs over 1-3 mixed Markdown/Cram documents with a marker file recording execution order, `-r json` results and the process exit status, incl. unparsable documents.",
+        "design_ref": "DESIGN.md §6 C20",
+        "note": "As C05. prepend/append via front-matter and -P/-A and directory arguments are exercised end-to-end only (thorough tier).",
+        "technique": "Lean 4 theorems on executor/aggregation model + e2e binary correspondence (marker order, json, exit status)",
+    },
     "C01": {
         "text": "Machine-checked theorem (Lean 4, no bound on the number of expectations or lines, any rule implementation): a diff without differences yields an in-order, gap-free assignment of lines to expectations respecting every quantifier (C01_no_false_pass). The model is the transliteration of DiffTool::diff; it is tied to the current source on every run by exhaustive differential execution over all quantifier vectors x match matrices up to 3x4 (thorough: 3x5, 4x4) through the real ExpectationMaker/DiffTool, plus random larger cases through all real rule kinds. A DP language-membership oracle on the real code searches for a failing input when anything breaks.",
         "design_ref": "DESIGN.md §6 C01",
